@@ -19,9 +19,10 @@ func init() {
 }
 
 type c09Fail struct {
-	Task   int `json:"task"`
-	Pos    int `json:"pos"`
-	Status int `json:"status"` // 127 = unknown command
+	Task   int  `json:"task"`
+	Pos    int  `json:"pos"`
+	Status int  `json:"status"`        // 127 = unknown command; -13 = external process killed by SIGPIPE
+	Ext    bool `json:"ext,omitempty"` // the status comes from an external process (sh -c 'exit N') instead of the builtin exit
 }
 
 type c09Case struct {
@@ -44,6 +45,9 @@ var c09Shapes = []c09Shape{
 	// a user task named clean run through --clean, and a task named default run by giving no task name
 	{"clean-flag", 1, [][]int{{}}, []string{"--clean"}},
 	{"default-task", 1, [][]int{{}}, []string{}},
+	// task names starting with an underscore (legal identifiers), as a dependency and requested directly
+	{"underscore-dependency", 2, [][]int{{}, {0}}, []string{"betatask"}},
+	{"underscore-requested", 1, [][]int{{}}, []string{"_gen"}},
 	{"single", 1, [][]int{{}}, []string{"alphatask"}},
 	{"independent", 2, [][]int{{}, {}}, []string{"alphatask", "betatask"}},
 	{"chain", 2, [][]int{{}, {0}}, []string{"betatask"}},
@@ -56,6 +60,12 @@ func (s c09Shape) taskName(t int) string {
 		return "clean"
 	case "default-task":
 		return "default"
+	case "underscore-dependency":
+		if t == 0 {
+			return "_gen"
+		}
+	case "underscore-requested":
+		return "_gen"
 	}
 	return c09Names[t]
 }
@@ -87,6 +97,10 @@ func (c c09Case) text() string {
 					failed = true
 					if f.Status == 127 {
 						fmt.Fprintf(&sb, "    test ! -e \"$VCTL/on\" || nosuchcommand_verif_%d\n", k)
+					} else if f.Status == -13 {
+						fmt.Fprintf(&sb, "    test ! -e \"$VCTL/on\" || sh -c 'kill -PIPE $$'\n")
+					} else if f.Ext {
+						fmt.Fprintf(&sb, "    test ! -e \"$VCTL/on\" || sh -c 'exit %d'\n", f.Status)
 					} else {
 						fmt.Fprintf(&sb, "    test ! -e \"$VCTL/on\" || exit %d\n", f.Status)
 					}
@@ -103,6 +117,10 @@ func (c c09Case) text() string {
 
 func c09Cases(tier string) []c09Case {
 	var out []c09Case
+	extStatuses := []int{1, 141, -13}
+	if tier == "thorough" {
+		extStatuses = []int{1, 2, 126, 129, 130, 137, 141, 143, 255, -13}
+	}
 	statuses := []int{1, 2, 127, 255}
 	if tier == "thorough" {
 		statuses = []int{1, 2, 3, 126, 127, 128, 200, 255}
@@ -116,7 +134,7 @@ func c09Cases(tier string) []c09Case {
 			var singles []c09Fail
 			for t := 0; t < sh.NTasks; t++ {
 				for k := 1; k <= n; k++ {
-					singles = append(singles, c09Fail{t, k, 1})
+					singles = append(singles, c09Fail{Task: t, Pos: k, Status: 1})
 				}
 			}
 			for _, mode := range []string{"plain", "quiet", "json", "force"} {
@@ -124,6 +142,12 @@ func c09Cases(tier string) []c09Case {
 					for _, st := range statuses {
 						f.Status = st
 						out = append(out, c09Case{sh.Name, n, []c09Fail{f}, mode})
+					}
+					// statuses of external processes, incl. 128+signal values and a real death by signal
+					for _, st := range extStatuses {
+						g := f
+						g.Status, g.Ext = st, true
+						out = append(out, c09Case{sh.Name, n, []c09Fail{g}, mode})
 					}
 				}
 				// two failing commands (same or different tasks)
